@@ -48,7 +48,7 @@ CLAIMED = {
         text='Direction 1: for all 1786 instruction slots the real Disassembler decodes memory whose operand bytes are symbolic; its text (numbers as numeral tokens, characters as symbolic characters) is fed to the real '
              'Assembler._assemble and z3 shows the bytes equal the decoded bytes for every operand value, in bases n b c d h m (all 36 pairs for LD (IX+d),n), hex/decimal default, either case; relative jumps at a symbolic address 0..65535 with wrap on; '
              'flagged variants are accepted as the property says. DEFB/DEFM/DEFW/DEFS over symbolic data with single and mixed sublength lists likewise (statements must tile the range). '
-             'Direction 2: 38 templates x 5 operand spellings with symbolic values are assembled, disassembled and re-assembled; byte equality by z3.',
+             'Direction 2: 38 templates x 5 operand spellings with symbolic values are assembled (what the assembler returns must be bytes), disassembled and re-assembled; byte equality by z3.',
         note='Abstracted and trusted: the digit rendering of Python format()/int() (numeral tokens) and chr()/ord() of ordinary characters (symbolic characters; the characters that matter to quoting are realised). '
              "Excluded as not 'signed operands': base m on port numbers and DEFS sizes. Outside: arithmetic expressions/odd whitespace in operands.",
         design='4 (C02), 2.1 (numerals)', technique=TECH + '; symbolic numerals through the real text interface'),
@@ -56,8 +56,8 @@ CLAIMED = {
         text='The real Z80 run-length coder is executed on symbolic data (up to 7 (thorough 10) free bytes; runs of a symbolic byte of length up to 600 alone/before/after/between other symbolic bytes, both block forms): '
              'decompress(compress(d)) == d, every emitted element is a byte, and a decoder written from the published format agrees - all by z3 per path. The real Z80 and SZX classes write registers and hardware state given as symbolic '
              'numeral specs and read them back: every attribute (all 8/16-bit registers, MEMPTR, IFF, IM, border, T-states over the whole frame, 7FFD, FFFD, AY, FE) equals what was written, for 48K/128K/+2, and decoders written from the '
-             'published Z80 v3 and ZX-State layouts read the same values from the bytes (so the two formats agree). snapshot.poke changes exactly the addressed cell (symbolic address/value/page, operators = ^ +).',
-        note='zlib is an opaque invertible stub; bytes/bytearray are list-backed stand-ins; numeral tokens abstract format()/int(). RAM contents in the header checks are zero (RAM coding is the RLE part). Outside: SNA, --move/--patch, file I/O, command-line parsing.',
+             'published Z80 v3 and ZX-State layouts read the same values from the bytes (so the two formats agree). snapshot.poke changes exactly the addressed cell (symbolic address/value/page, operators = ^ +, banks with distinct symbolic contents) and a stepped range exactly its cells; snapshot.move (flat, overlapping, paged, at a bank end) leaves exactly the copied block at the destination and bank sizes unchanged.',
+        note='zlib is an opaque invertible stub; bytes/bytearray are list-backed stand-ins; numeral tokens abstract format()/int(). RAM contents in the header checks are zero (RAM coding is the RLE part). Outside: SNA, --patch, file I/O, command-line parsing.',
         design='4 (C09), 3.3', technique=TECH + '; reference decoders from the published formats'),
     'C01': dict(
         text='Block level: for ~100 control-file shapes (every block type, sub-block types B C S T W, sublength lists with b c d h m n prefixes, * multipliers, L loops, M, ignored blocks, statements cut short by a sub-block end, '
@@ -130,8 +130,8 @@ CLAIMED = {
         design='4 (C13)', technique=TECH + '; induction over the loop counter; Engine B for the C handler', engine='symx+llsym'),
     'C10': dict(
         text='The state a later instruction can read (all 30 register slots, T over a frame, border, FE, 7FFD, FFFD, 16 AY registers, RAM cells) is symbolic in a real simulator + tracer; the real get_state -> write_snapshot (Z80, SZX) -> Snapshot.get -> '
-             'get_registers chain (as from_snapshot uses it) runs on it and z3 decides component-wise that the restored state equals the saved one (SZX incl. MEMPTR, Z80 except MEMPTR) for 48K/128K/+2. With instruction determinism (C05/C06) this gives transparency at every split point.',
-        note='Known finding: the HALT flag is not saved (6 entries, one per format x machine). Outside: trace.run option handling and the trace loop (its next-interrupt time is recomputed from T on entry), SNA, construction of the C simulator object. '
+             'get_registers chain (as from_snapshot uses it) runs on it and z3 decides component-wise that the restored state equals the saved one (SZX incl. MEMPTR, Z80 except MEMPTR) for 48K/128K/+2. With instruction determinism (C05/C06) this gives transparency at every split point. The Python loop of trace.py (Tracer.run) over a four-instruction set with exact effects and a symbolic clock: two instructions in one go == one instruction, stop, one instruction from the state left (the interrupt schedule depends on the saved state only).',
+        note='Known finding: the HALT flag is not saved (6 entries, one per format x machine). Outside: trace.run option handling, the C trace loop, SNA, construction of the C simulator object. '
              '3 RAM cells symbolic, the rest zero.',
         design='4 (C10)', technique=TECH),
 }
